@@ -125,6 +125,7 @@ static json solutionFacts(const Problem &pr, const ob::ProblemDefinition &pd, co
         j["vertsValid"] = false;
         j["endInGoal"] = false;
         j["endDist"] = 0;
+        j["endDistMax"] = 0;
         j["run"] = 0;
         j["pairsOk"] = false;
         j["cells"] = json::array();
@@ -138,6 +139,7 @@ static json solutionFacts(const Problem &pr, const ob::ProblemDefinition &pd, co
     j["vertsValid"] = f.verticesValid;
     j["endInGoal"] = f.endInGoal;
     j["endDist"] = fx(f.endDist);
+    j["endDistMax"] = fx(f.endDistMax);
     j["run"] = fx(f.maxInvalidRun);
     j["pairsOk"] = f.pairsRecheckOk;
     // abstract cell walk: free cells visited along the densely sampled path, deduplicated
